@@ -139,3 +139,12 @@ class AnalyticFlow(Flow):
         from aspire.history import FlowHistory
 
         return FlowHistory()
+
+    def save(self, h5_file, path="flow"):
+        grp = h5_file.create_group(path)
+        grp.attrs["class"] = "AnalyticFlow"
+        grp.create_dataset("mu", data=self.mu)
+        if self.sigma is not None:
+            grp.create_dataset("sigma", data=self.sigma)
+        grp.attrs["seed"] = self.seed
+        grp.attrs["stamp"] = getattr(self, "stamp", "")
